@@ -720,6 +720,13 @@ func healthScenario(s *verifsim.Sim) {
 					g.switched = true
 					g.bestInit = [8]bool{}
 					s.Probe("health.policy-switch")
+					// the optimality clause holds for every run-time policy switch: ask right away
+					for _, nt := range w.types {
+						if s.Failed() {
+							break
+						}
+						w.checkSelect(g, e.group, nt, true, nil, modelAlive)
+					}
 				case eSelect:
 					g := w.groups[e.group]
 					var excl *componentdialer.Dialer
